@@ -575,6 +575,15 @@ def rule_e7(chk, prog, em, tool, seen):
         for c in alloc_sites(prog, f):
             for (br, succ, aliases) in _e7_null_edges(prog, f, c):
                 sites.append((c, norm_callee(c.callee), br, succ, aliases, ()))
+        # constructors of the project: functions that hand back an object, or NULL when something they need fails
+        for c in f.calls():
+            if not c.callee or not (c.ty or "").endswith("*"):
+                continue
+            t = prog.fn(c.callee, f.unit)
+            if t is None or t.decl or t not in _null_on_failure(prog, em):
+                continue
+            for (br, succ, aliases) in _e7_null_edges(prog, f, c):
+                sites.append((c, norm_callee(c.callee), br, succ, aliases, ()))
         for c in f.calls():
             if not em.call_is_err(c):
                 continue
@@ -624,6 +633,34 @@ def rule_e7(chk, prog, em, tool, seen):
                                   "the constant 0" if v.is_const else "a result that the guards in front of the failure "
                                   "pin to 0 (the status variable was not set)"))
     return n
+
+
+_NOF = {}
+
+
+def _null_on_failure(prog, em):
+    """defined functions with a pointer result that answer NULL somewhere and can be hit by a fault (an allocation, I/O)"""
+    got = _NOF.get(id(prog))
+    if got is None:
+        got = set()
+        for g in prog.functions():
+            if g.decl or not (g.ret or "").endswith("*") or g not in em.fault_reach:
+                continue
+            nulls = [b for (v, b) in ret_sources(g.build()) if strip_casts(v).is_const and strip_casts(v).is_null]
+            if not nulls:
+                continue
+            # every NULL it answers is behind the failure of something it called (or of an argument check): a function that
+            # also says NULL for "not there" (a lookup) is not a constructor, its NULL is an answer
+            def behind_failure(b):
+                for cond, outcome, br in g.guards_at(b):
+                    for x in [cond] + list(backward_slice(cond, phi_control=False, limit=40)):
+                        if x.is_inst and x.op == "call" and not (norm_callee(x.callee) or "").startswith("llvm."):
+                            return True
+                return False
+            if all(behind_failure(b) for b in nulls):
+                got.add(g)
+        _NOF[id(prog)] = got
+    return got
 
 
 def _recovered_by_retry(prog, f, failed, path):
